@@ -51,6 +51,9 @@ def register(J):
             for og in shapes(no):
                 if (bg, og) in seen or not canonical(bg, og):
                     continue
+                # two key names: a list cannot hold three entries of one section
+                if any(x.count(c) > 2 for x in (bg, og) for c in "012"):
+                    continue
                 seen.add((bg, og))
                 J.append(mk(bg, og, 0, 0, tiers))
     # objects from econf_newKeyFile (8 pre-initialised slots) on either side
